@@ -347,7 +347,7 @@ func missedArrayReadsPresentEntries(r *Run, rule string) {
 		n++
 		if len(ci.Common().Args) >= 2 {
 			at := P.TermAt(ci.Common().Args[1], in).String()
-			r.Check(strings.Contains(at, "MustUnmarshalBinaryLengthPrefixed("), rule, "IterateAndExecuteOverMissedArray/callback-gets-decoded-bit", P.InstrPos(in), "the stored bit, decoded", "the callback receives "+oneLine(at)+" as the missed flag ; required the value decoded from the stored bytes")
+			r.Check(strings.Contains(at, "UnmarshalBinaryLengthPrefixed("), rule, "IterateAndExecuteOverMissedArray/callback-gets-decoded-bit", P.InstrPos(in), "the stored bit, decoded", "the callback receives "+oneLine(at)+" as the missed flag ; required the value decoded from the stored bytes")
 		}
 		ok2, _ := HasAtom(P.Guards(in, 0), `^!isnil\(store/types\.KVStore\.Get\(`)
 		r.Check(ok2, rule, "IterateAndExecuteOverMissedArray/callback-on-present", P.InstrPos(in), "callback under Get != nil", "the callback runs under {"+strings.Join(atomStrings(P.Guards(in, 0)), " ; ")+"} ; required store.Get(key) != nil (absent slots would be reported, present ones skipped)")
